@@ -104,6 +104,51 @@ PROPS = {
             "'state intact afterwards' is covered by the digest clause of C01's monitor on the same traces",
         ],
     },
+    "C01": {
+        "modules": ["Hannibal.Props.C01", "Hannibal.Props.C01Current"],
+        "theorems": ["Hannibal.C01_holds", "Hannibal.C01_current", "Hannibal.monC01_step"],
+        "cases": {"quick": {"C01": 1500}, "thorough": {"C01": 20000, "C12": 3000, "C07": 3000}},
+        "assumptions": COMMON_ASSUMPTIONS + [
+            "well-formedness hypothesis wf01 (message numbers and operation ids of the trace are fresh) - checked "
+            "on every real trace by monWf01 in the same run; without it the model has runs the monitor rejects "
+            "(c01ReuseMsg, c01ReuseOp in Props/C01Current.lean)",
+            "'completed' = send returned Ok, call/ping returned (Ok or Canceled); a send that failed is not completed",
+            "multi-actor part of 'from any task' (other actors as submitters) appears as ordinary client operations",
+        ],
+    },
+    "C02": {
+        "modules": ["Hannibal.Props.C02", "Hannibal.Props.C02Current"],
+        "theorems": ["Hannibal.C02_holds", "Hannibal.C02_current", "Hannibal.C02_split", "Hannibal.C02t_holds",
+                     "Hannibal.C02orig_holds", "Hannibal.C02orig_current"],
+        "cases": {"quick": {"C02": 1500}, "thorough": {"C02": 20000, "C06": 3000, "C04": 3000}},
+        "assumptions": COMMON_ASSUMPTIONS + [
+            "operation ids of the trace are fresh (opIdsFresh, checked on every real trace by monC02wf)",
+            "'an await begun after a graceful termination returns Ok' (monC02t) is proved only under "
+            "noCancelAfterStopped (the loop task is not cancelled between the return of stopped() and its end: the "
+            "loop future has no suspension point there, the model allows a cancel there); on real traces the clause "
+            "is checked directly",
+            "'provided user handlers themselves terminate': handler scripts of the harness always do",
+        ],
+    },
+    "C06": {
+        "modules": ["Hannibal.Props.C06", "Hannibal.Props.C06Send", "Hannibal.Props.C06Quiet", "Hannibal.Props.C06Split",
+                    "Hannibal.Props.C06Current"],
+        "theorems": ["Hannibal.C06_holds", "Hannibal.C06_current", "Hannibal.wellWired06_current", "Hannibal.monC06_split",
+                     "Hannibal.C06s_holds", "Hannibal.C06s_current", "Hannibal.C06q_holds", "Hannibal.C06q_current"],
+        "cases": {"quick": {"C06": 1500}, "thorough": {"C06": 20000, "C02": 3000, "C11": 3000}},
+        "assumptions": COMMON_ASSUMPTIONS + [
+            "single-actor part: 'children are released and stop gracefully', 'the registry treats it as not running' "
+            "and 'other actors keep working' are the multi-actor clauses; they are carried by C16 (release at any "
+            "termination cause), C08 (term events of failed instances) and by acceptance of every other actor's trace",
+            "'a send begun after the failure never returns Ok' is false of the model between the failure and the end "
+            "of the task (c06LateSend: the receiver lives until taskDone; in the real code both happen in one poll); "
+            "it is trace-checked (monC06t) and proved from the end of the task on (C06s_holds)",
+            "'nothing pending at quiescence' is proved for traces with fresh operation ids (uniqueBegins, checked on "
+            "every real trace by monUniq)",
+            "every single fault kind x position is sampled by the generator (start error / panic, handler panic, stopped "
+            "panic, timeout failure, cancellation at the j-th poll), pairs of faults only in thorough runs via restart_err",
+        ],
+    },
     "C05": {
         "modules": ["Hannibal.Props.C05", "Hannibal.Props.C05Current"],
         "theorems": ["Hannibal.C05_holds", "Hannibal.C05_current", "Hannibal.wellWired05_current"],
